@@ -180,3 +180,34 @@ Definition push_thread_bindings_shape : N := 1%N.
 Definition pop_thread_bindings_shape : N := 1%N.
 Definition var_bindings_shape : N := 1%N.
 Definition binding_forms_shape : N := 1%N.
+
+(* ---- C15 (optimizer) fallbacks ---- *)
+Definition opt_binops : list (N * N)%type := [].
+Definition opt_unaryops : list (N * N)%type := [].
+Definition opt_compareops : list (N * N)%type := [].
+Definition opt_isops : list (N * (N * N))%type := [].
+Definition opt_terminators : list N := [16%N; 17%N; 18%N; 19%N].
+Definition opt_expr_droppable : list N := [5%N; 6%N].
+Definition opt_visitors : list N := [4%N; 7%N; 9%N; 10%N; 11%N; 12%N; 13%N; 15%N].
+Definition opt_ctx_openers : list N := [13%N].
+Definition opt_contains_swapped : bool := true.
+Definition opt_is_uses_eq : bool := true.
+Definition opt_has_getitem : bool := true.
+Definition opt_has_delitem : bool := true.
+
+(* ---- C08 (harness/tr/tr_arity.py): copies of what the translator emits for the pinned tree ---- *)
+(* generator.__multi_arity_dispatch_fn: 0 = `nargs >= max_fixed_arity` selects the rest arity *)
+Definition arity_dispatch_cmp : N := 0%N.
+(* 1 = the function has the shape the model of C08/Arity.v transcribes *)
+Definition arity_apply_to_shape : N := 1%N.
+Definition arity_apply_shape : N := 1%N.
+Definition arity_unwrap_shape : N := 1%N.
+Definition arity_partial_shape : N := 1%N.
+Definition arity_trampoline_shape : N := 1%N.
+Definition arity_analyzer_rule : N := 1%N.
+Definition future_deref_mode : N := 1%N.
+(* C08, after the repairs F-08a/b/c: 1 = a - n kept for a >= n; a final nil of a variadic recur is
+   dropped; the recur point of each arity carries that arity's own is_variadic flag *)
+Definition arity_partial_cmp : N := 1%N.
+Definition arity_tramp_nil : N := 1%N.
+Definition arity_recur_flag : N := 1%N.
